@@ -83,6 +83,27 @@ def worker_random(args):
     return part
 
 
+def miri_smoke(ctx):
+    """attached layer: the adaptor's fixed self test (lexer updates + a parser update history) under Miri.
+    An undefined-behaviour report is a violation; an unavailable/failed Miri setup is only noted."""
+    import subprocess, os
+    from ..core import VERIF, WORK
+    env = dict(os.environ, CARGO_NET_OFFLINE="true", CARGO_TARGET_DIR=os.path.join(WORK, "target-miri"))
+    try:
+        p = subprocess.run(["cargo", "+nightly", "miri", "run", "--offline", "--", "--selftest", "12"], cwd=os.path.join(VERIF, "adaptor"), env=env, capture_output=True, text=True, timeout=1500)
+    except Exception as e:
+        ctx.extra["miri_smoke"] = "not run: %s" % e; return
+    out = (p.stdout + p.stderr)
+    if "Undefined Behavior" in out or "error: unsupported operation" in out and "selftest" not in out:
+        ctx.violation("Miri reports undefined behaviour in code reached by lexer::update / parser::update: %s" % out[out.find("error"):][:800], {"kind": "miri", "log": out[-3000:]})
+    elif p.returncode == 0 and "bad=0" in out:
+        ctx.extra["miri_smoke"] = "passed: " + [l for l in out.split("\n") if l.startswith("selftest")][0]; ctx.count(15)
+    elif "selftest" in out and "bad=" in out:
+        ctx.violation("self test diverges under Miri: %s" % out[-300:], {"kind": "miri", "log": out[-3000:]})
+    else:
+        ctx.extra["miri_smoke"] = "inconclusive (exit %s): %s" % (p.returncode, out[-300:])
+
+
 def run(ctx):
     L, R = (3, 1) if ctx.quick else (3, 2)
     parts = pmap(worker_enum, [(i, NCPU, L, R) for i in range(NCPU)])
@@ -94,6 +115,7 @@ def run(ctx):
         enum.append({"L": 4, "R": 2, "cases": sum(p["counters"].get("enum_cases", 0) for p in parts), "complete": True})
     ctx.extra["exhaustive_part"] = {"alphabet": ALPHABET, "enumerations": enum,
                                     "what": "all texts up to length L, every byte range on character boundaries, every replacement up to length R"}
+    if not ctx.quick: miri_smoke(ctx)
     n = 150 if ctx.quick else 6000
     for p in pmap(worker_random, [("%s/%d" % (ctx.seed, i), n, 50) for i in range(NCPU)]): ctx.merge(p)
     ctx.sample({"part": "enumeration", "example": {"text": "a/", "change": [2, 2, "/"], "meaning": "typing the second slash turns `/` into a comment"}})
